@@ -43,6 +43,129 @@ impl tokio::io::AsyncWrite for ShortWriter {
     }
 }
 
+/// A sync sink that takes at most `max` bytes per call and answers every third call with `Interrupted`
+/// (which `write_all` must retry), or an async sink that returns `Pending` (after waking itself) on every
+/// other poll.  What arrives must be the same bytes as into a plain `Vec`.
+struct MoodySink {
+    out: Vec<u8>,
+    max: usize,
+    calls: usize,
+    moody: bool,
+    /// more bytes than this means the writer is running away (restarting a part for ever): fail instead of hanging
+    limit: usize,
+}
+impl MoodySink {
+    fn new(max: usize, moody: bool) -> MoodySink {
+        MoodySink { out: Vec::new(), max, calls: 0, moody, limit: 1 << 20 }
+    }
+    fn limited(max: usize, moody: bool, limit: usize) -> MoodySink {
+        MoodySink { out: Vec::new(), max, calls: 0, moody, limit }
+    }
+}
+impl std::io::Write for MoodySink {
+    fn write(&mut self, buf: &[u8]) -> std::io::Result<usize> {
+        self.calls += 1;
+        if self.out.len() > self.limit {
+            return Err(std::io::Error::other("runaway writer: far more bytes than any frame of this run"));
+        }
+        if self.moody && self.calls % 3 == 0 {
+            return Err(std::io::Error::from(std::io::ErrorKind::Interrupted));
+        }
+        let n = buf.len().min(self.max.max(1));
+        self.out.extend_from_slice(&buf[..n]);
+        Ok(n)
+    }
+    fn flush(&mut self) -> std::io::Result<()> {
+        Ok(())
+    }
+}
+impl tokio::io::AsyncWrite for MoodySink {
+    fn poll_write(mut self: std::pin::Pin<&mut Self>, cx: &mut std::task::Context<'_>, buf: &[u8]) -> std::task::Poll<std::io::Result<usize>> {
+        self.calls += 1;
+        if self.out.len() > self.limit {
+            // a writer that restarts a part for ever must not hang the harness
+            return std::task::Poll::Ready(Err(std::io::Error::other("runaway writer: far more bytes than any frame of this run")));
+        }
+        if self.moody && self.calls % 2 == 0 {
+            cx.waker().wake_by_ref();
+            return std::task::Poll::Pending;
+        }
+        let n = buf.len().min(self.max.max(1));
+        self.out.extend_from_slice(&buf[..n]);
+        std::task::Poll::Ready(Ok(n))
+    }
+    fn poll_flush(self: std::pin::Pin<&mut Self>, _cx: &mut std::task::Context<'_>) -> std::task::Poll<std::io::Result<()>> {
+        std::task::Poll::Ready(Ok(()))
+    }
+    fn poll_shutdown(self: std::pin::Pin<&mut Self>, _cx: &mut std::task::Context<'_>) -> std::task::Poll<std::io::Result<()>> {
+        std::task::Poll::Ready(Ok(()))
+    }
+}
+
+/// A stream that delivers its bytes in fragments (the way a socket does) and then EOF.  `frag` = 0: all that
+/// is asked for; n > 0: at most n bytes per read; the async side additionally returns `Pending` before every
+/// other fragment when `frag` is odd.
+struct FragReader<'a> {
+    data: &'a [u8],
+    frag: usize,
+    polls: usize,
+}
+impl<'a> FragReader<'a> {
+    fn new(data: &'a [u8], frag: usize) -> FragReader<'a> {
+        FragReader { data, frag, polls: 0 }
+    }
+    fn take(&mut self, want: usize) -> &'a [u8] {
+        let lim = if self.frag == 0 { want } else { want.min(self.frag) };
+        let n = lim.min(self.data.len());
+        let (a, b) = self.data.split_at(n);
+        self.data = b;
+        a
+    }
+}
+impl<'a> std::io::Read for FragReader<'a> {
+    fn read(&mut self, buf: &mut [u8]) -> std::io::Result<usize> {
+        let a = self.take(buf.len());
+        buf[..a.len()].copy_from_slice(a);
+        Ok(a.len())
+    }
+}
+impl<'a> tokio::io::AsyncRead for FragReader<'a> {
+    fn poll_read(mut self: std::pin::Pin<&mut Self>, cx: &mut std::task::Context<'_>, buf: &mut tokio::io::ReadBuf<'_>) -> std::task::Poll<std::io::Result<()>> {
+        self.polls += 1;
+        if self.frag % 2 == 1 && self.polls % 2 == 0 {
+            cx.waker().wake_by_ref();
+            return std::task::Poll::Pending;
+        }
+        let a = self.take(buf.remaining());
+        buf.put_slice(a);
+        std::task::Poll::Ready(Ok(()))
+    }
+}
+
+/// State that outlives one op: persistent sinks (several frames through ONE writer), a recycled body buffer.
+struct World {
+    sync_sink: std::io::BufWriter<MoodySink>,
+    async_sink: tokio::io::BufWriter<MoodySink>,
+    plain_sink: Vec<u8>,
+    expected: Vec<u8>,
+    since_sink: Vec<String>,
+    n_since: usize,
+    recycled: Vec<u8>,
+}
+impl World {
+    fn new() -> World {
+        World {
+            sync_sink: std::io::BufWriter::with_capacity(61, MoodySink::new(13, true)),
+            async_sink: tokio::io::BufWriter::with_capacity(61, MoodySink::new(13, true)),
+            plain_sink: Vec::new(),
+            expected: Vec::new(),
+            since_sink: Vec::new(),
+            n_since: 0,
+            recycled: Vec::new(),
+        }
+    }
+}
+
 // ------------------------------------------------------------------------------------------
 // execution of op lines against the real code
 // ------------------------------------------------------------------------------------------
@@ -83,7 +206,7 @@ fn show_res<T>(r: Result<Result<T, repe::RepeError>, String>, f: impl Fn(&T) -> 
 }
 
 /// Execute one op line; returns (observation line, nontrivial?).
-fn exec(out: &mut Out, line: &str, rtm: &tokio::runtime::Runtime) -> (String, bool) {
+fn exec(out: &mut Out, world: &mut World, line: &str, rtm: &tokio::runtime::Runtime) -> (String, bool) {
     let w = words(line);
     let idx = w.get(1).copied().unwrap_or("?");
     match w[0] {
@@ -95,6 +218,8 @@ fn exec(out: &mut Out, line: &str, rtm: &tokio::runtime::Runtime) -> (String, bo
             // optional: spare capacity of the query Vec, and the per-call limit of the short-write sinks
             let qspare: usize = w.get(16).and_then(|x| x.parse().ok()).unwrap_or(0);
             let wmax: usize = w.get(17).and_then(|x| x.parse().ok()).unwrap_or(7);
+            // optional: sinks that interrupt (sync) / return Pending (async) between fragments
+            let moody: bool = w.get(18).map(|x| *x == "1").unwrap_or(false);
             let h = rh.to_repe();
             let mk_query = || {
                 let mut v = Vec::with_capacity(q.len() + qspare);
@@ -130,6 +255,30 @@ fn exec(out: &mut Out, line: &str, rtm: &tokio::runtime::Runtime) -> (String, bo
             let r4s = std::mem::take(&mut sw.out);
             let _ = repe::write_message_streaming(&mut sw, h, &q, b.len() as u64, |w: &mut ShortWriter| std::io::Write::write_all(w, &b));
             let r5short = std::mem::take(&mut sw.out);
+            // the same routes into sinks that interrupt / stay pending between fragments
+            let mut ms = MoodySink::limited(wmax, moody, 2 * (48 + q.len() + b.len()) + 4096);
+            let e1 = m.write_to(&mut ms).is_err();
+            let r1m = std::mem::take(&mut ms.out);
+            let e3 = repe::write_message(&mut ms, &m).is_err();
+            let r3m = std::mem::take(&mut ms.out);
+            let e4 = rtm.block_on(async { repe::async_io::write_message_async(&mut ms, &m).await.is_err() });
+            let r4m = std::mem::take(&mut ms.out);
+            // several frames through ONE buffered writer each (checked at the next `sink` op)
+            let persist_err = {
+                let a = repe::write_message(&mut world.sync_sink, &m).is_err();
+                let b = rtm.block_on(async { repe::async_io::write_message_async(&mut world.async_sink, &m).await.is_err() });
+                let c = m.write_to(&mut world.plain_sink).is_err();
+                a || b || c
+            };
+            world.since_sink.push(line.to_string());
+            world.n_since += 1;
+            // a body buffer recycled from the previous frame's output (stale bytes beyond len, arbitrary capacity)
+            let r2r = {
+                let mut body = std::mem::take(&mut world.recycled);
+                body.clear();
+                body.extend_from_slice(&b);
+                Message { header: h, query: mk_query(), body }.into_wire_bytes()
+            };
             let mut r5 = Vec::new();
             let r5res = catch(|| {
                 repe::write_message_streaming(&mut r5, h, &q, b.len() as u64, |w: &mut Vec<u8>| {
@@ -139,6 +288,19 @@ fn exec(out: &mut Out, line: &str, rtm: &tokio::runtime::Runtime) -> (String, bo
             // --- direct oracle: independent layout, all routes equal
             let want = RawFrame { h: rh.clone(), query: q.clone(), body: b.clone() }.to_vec();
             let ops = vec![line.to_string()];
+            world.expected.extend_from_slice(&want);
+            if e1 || e3 || e4 || persist_err {
+                out.oracle_fail("wire.route.sink_error", &format!("a route failed on a sink that only interrupts / stays pending between fragments (write_to {} write_message {} async {} persistent {})", e1, e3, e4, persist_err), &ops);
+            }
+            for (name, r) in [("write_to.moody_sink", &r1m), ("write_message.moody_sink", &r3m), ("write_message_async.moody_sink", &r4m), ("into_wire_bytes.recycled_buffer", &r2r)] {
+                if *r != want {
+                    out.oracle_fail(&format!("wire.route.{}", name), &format!("route {} differs from the spec layout frame (cap {}, sink max {}, moody {})", name, cap, wmax, moody), &ops);
+                }
+            }
+            world.recycled = r2r;
+            if m.serialized_len() != want.len() {
+                out.oracle_fail("wire.serialized_len", &format!("serialized_len() = {} but the frame has {} bytes", m.serialized_len(), want.len()), &ops);
+            }
             if r0 != want {
                 out.oracle_fail("wire.to_vec.layout", &format!("to_vec differs from the spec layout at case {}", idx), &ops);
             }
@@ -175,7 +337,7 @@ fn exec(out: &mut Out, line: &str, rtm: &tokio::runtime::Runtime) -> (String, bo
                 // round trip through every parser
                 let ok1 = matches!(Message::from_slice(&r0), Ok(ref p) if *p == m);
                 let ok2 = matches!(Message::from_slice_exact(&r0), Ok(ref p) if *p == m);
-                let ok3 = matches!(MessageView::from_slice(&r0), Ok(v) if v.header == m.header && v.query == &q[..] && v.body == &b[..]);
+                let ok3 = matches!(MessageView::from_slice(&r0), Ok(v) if v.header == m.header && v.query == &q[..] && v.body == &b[..] && v.to_message() == m);
                 let ok4 = matches!(MessageView::from_slice_exact(&r0), Ok(v) if v.header == m.header && v.query == &q[..] && v.body == &b[..]);
                 let ok5 = matches!(repe::read_message(&mut &r0[..]), Ok(ref p) if *p == m);
                 // a frame followed by more bytes (pipelining): the non-exact parsers must return exactly the frame
@@ -203,11 +365,30 @@ fn exec(out: &mut Out, line: &str, rtm: &tokio::runtime::Runtime) -> (String, bo
             let bf: u16 = w[6].parse().unwrap();
             let q = unhex(w[7]).unwrap();
             let b = unhex(w[8]).unwrap();
-            let mut bld = Message::builder().id(id).notify(notify).query_format_code(qf).body_format_code(bf);
-            if let Ok(code) = repe::ErrorCode::try_from(ec) {
-                bld = bld.error_code(code);
-            }
-            let m = bld.query_bytes(q.clone()).body_bytes(b.clone()).build();
+            // optional: the order in which the (independent) setters are called, and which twin setter is used
+            let order: u64 = w.get(9).and_then(|x| x.parse().ok()).unwrap_or(0);
+            let code = repe::ErrorCode::try_from(ec).ok();
+            let roomy = |v: &Vec<u8>, extra: usize| { let mut x = Vec::with_capacity(v.len() + extra); x.extend_from_slice(v); x };
+            let set_q = |bld: repe::message::MessageBuilder| match (order % 3, std::str::from_utf8(&q)) {
+                (1, Ok(sq)) => bld.query_str(sq),
+                (2, _) => bld.query_bytes(roomy(&q, 64)),
+                _ => bld.query_bytes(q.clone()),
+            };
+            let set_b = |bld: repe::message::MessageBuilder| if order % 2 == 1 { bld.body_bytes(roomy(&b, 48 + q.len())) } else { bld.body_bytes(&b[..]) };
+            let set_ec = |bld: repe::message::MessageBuilder| match code { Some(c) => bld.error_code(c), None => bld };
+            let m = match order % 4 {
+                0 => set_b(set_q(set_ec(Message::builder().id(id).notify(notify).query_format_code(qf).body_format_code(bf)))).build(),
+                1 => set_ec(set_q(set_b(Message::builder())).body_format_code(bf).query_format_code(qf).notify(notify).id(id)).build(),
+                2 => set_q(set_ec(set_b(Message::builder().notify(!notify).id(!id)).id(id)).notify(notify).body_format_code(bf)).query_format_code(qf).build(),
+                _ => {
+                    // the enum-typed setters where the code is one of the named formats
+                    let mut bld = set_ec(Message::builder().id(id).notify(notify));
+                    bld = match repe::QueryFormat::try_from(qf) { Ok(f) => bld.query_format(f), Err(_) => bld.query_format_code(qf) };
+                    bld = set_b(set_q(bld));
+                    bld = match repe::BodyFormat::try_from(bf) { Ok(f) => bld.body_format(f), Err(_) => bld.body_format_code(bf) };
+                    bld.build()
+                }
+            };
             let v = m.to_vec();
             let ops = vec![line.to_string()];
             let want = RawFrame {
@@ -220,8 +401,244 @@ fn exec(out: &mut Out, line: &str, rtm: &tokio::runtime::Runtime) -> (String, bo
             if v != want.to_vec() {
                 out.oracle_fail("wire.build", "builder output differs from the spec layout / lengths", &ops);
             }
+            if m.clone().into_wire_bytes() != v || m.serialized_len() != v.len() {
+                out.oracle_fail("wire.build.routes", "a built message: into_wire_bytes / serialized_len disagree with to_vec", &ops);
+            }
             out.count("wire.build");
             (format!("{} {}", idx, hex(&v)), true)
+        }
+        "sink" => {
+            // everything the persistent sinks received since the last `sink`: exactly the frames, in order
+            use std::io::Write as _;
+            let ops: Vec<String> = world.since_sink.iter().cloned().chain(std::iter::once(line.to_string())).collect();
+            let f1 = world.sync_sink.flush().is_err();
+            let f2 = rtm.block_on(async { tokio::io::AsyncWriteExt::flush(&mut world.async_sink).await.is_err() });
+            let a = std::mem::take(&mut world.sync_sink.get_mut().out);
+            let b = std::mem::take(&mut world.async_sink.get_mut().out);
+            let c = std::mem::take(&mut world.plain_sink);
+            let want = std::mem::take(&mut world.expected);
+            let n = world.n_since;
+            world.n_since = 0;
+            world.since_sink.clear();
+            for (name, got, failed) in [("write_message.bufwriter", &a, f1), ("write_message_async.bufwriter", &b, f2), ("write_to.vec", &c, false)] {
+                if *got != want || failed {
+                    let frames = RawFrame::split_stream(got).0.len();
+                    out.oracle_fail(&format!("wire.sequence.{}", name), &format!("{} frames written through one writer: the sink received {} bytes holding {} whole frames, the frames are {} bytes", n, got.len(), frames, want.len()), &ops);
+                }
+            }
+            out.count("wire.sink");
+            (format!("{} n={} {}:{:016x}", idx, n, a.len(), fnv(&a)), n > 1)
+        }
+        "new" => {
+            let rh = parse_header_words(&w[2..13]).expect("new header");
+            let q = unhex(w[13]).unwrap();
+            let b = unhex(w[14]).unwrap();
+            let r = catch(|| Message::new(rh.to_repe(), q.clone(), b.clone()));
+            let sl = Message { header: rh.to_repe(), query: q.clone(), body: b.clone() }.serialized_len();
+            out.count("wire.new");
+            (format!("{} {} {}", idx, show_res(r, |_| "new".to_string()), sl), true)
+        }
+        "errmsg" | "errlike" => {
+            let ops = vec![line.to_string()];
+            let (m, want) = if w[0] == "errmsg" {
+                let code: u32 = w[2].parse().unwrap();
+                let text = String::from_utf8(unhex(w[3]).unwrap()).expect("utf8 text");
+                let ec = repe::ErrorCode::try_from(code).expect("named code");
+                (repe::message::create_error_message(ec, &text),
+                 RawFrame { h: RawHeader { length: 48 + text.len() as u64, spec: 0x1507, version: 1, body_length: text.len() as u64, body_format: 3, ec: code, ..Default::default() }, query: vec![], body: text.into_bytes() })
+            } else {
+                let id: u64 = w[2].parse().unwrap();
+                let rq = unhex(w[3]).unwrap();
+                let code: u32 = w[4].parse().unwrap();
+                let text = String::from_utf8(unhex(w[5]).unwrap()).expect("utf8 text");
+                let ec = repe::ErrorCode::try_from(code).expect("named code");
+                // the request object may carry declared lengths that are not those of its payloads (a hand-built or
+                // re-used Message): the response must be framed from the real query
+                let mut req = Message::builder().id(id).query_bytes(rq.clone()).query_format_code(1).body_bytes(vec![1u8, 2, 3]).build();
+                if let (Some(sq), Some(sb)) = (w.get(6).and_then(|x| x.parse::<u64>().ok()), w.get(7).and_then(|x| x.parse::<u64>().ok())) {
+                    req.header.query_length = sq;
+                    req.header.body_length = sb;
+                    req.header.length = sq.wrapping_add(sb);
+                }
+                (repe::message::create_error_response_like(&req, ec, &text),
+                 RawFrame { h: RawHeader { length: 48 + rq.len() as u64 + text.len() as u64, spec: 0x1507, version: 1, id, query_length: rq.len() as u64, body_length: text.len() as u64, body_format: 3, ec: code, ..Default::default() }, query: rq, body: text.into_bytes() })
+            };
+            let v = m.to_vec();
+            // what the property asks of any message the library builds: a consistent canonical frame that parses back
+            let consistent = matches!(RawFrame::parse_prefix(&v), Some((ref f, n)) if n == v.len() && f.query == m.query && f.body == m.body);
+            if !consistent || m.clone().into_wire_bytes() != v || !matches!(Message::from_slice_exact(&v), Ok(ref p) if *p == m) {
+                out.oracle_fail(&format!("wire.{}.inconsistent", w[0]), "an error message built by the library is not a consistent frame / does not round-trip", &ops);
+            }
+            if m.query != want.query || m.body != want.body || m.header.ec != want.h.ec {
+                out.oracle_fail(&format!("wire.{}.content", w[0]), "error message does not carry the given code / text / echoed query", &ops);
+            }
+            out.count(&format!("wire.{}", w[0]));
+            (format!("{} {}", idx, hex(&v)), true)
+        }
+        "resp" => {
+            // resp <idx> <req id> <req qf> <req query> <body format> <expected body (serialised independently)> <json value>
+            let ops = vec![line.to_string()];
+            let id: u64 = w[2].parse().unwrap();
+            let qf: u16 = w[3].parse().unwrap();
+            let rq = unhex(w[4]).unwrap();
+            let bf: u16 = w[5].parse().unwrap();
+            let body = unhex(w[6]).unwrap();
+            let value: serde_json::Value = serde_json::from_str(&String::from_utf8(unhex(w[7]).unwrap()).unwrap()).unwrap();
+            let req = Message::builder().id(id).query_bytes(rq.clone()).query_format_code(qf).body_bytes(vec![9u8]).build();
+            let r = repe::message::create_response(&req, &value, repe::BodyFormat::try_from(bf).expect("named body format"));
+            match r {
+                Ok(m) => {
+                    let v = m.to_vec();
+                    let consistent = matches!(RawFrame::parse_prefix(&v), Some((ref f, n)) if n == v.len() && f.query == rq && f.body == body);
+                    if !consistent || m.clone().into_wire_bytes() != v {
+                        out.oracle_fail("wire.resp.inconsistent", "a response built by the library is not a consistent frame echoing the query and carrying the serialised body", &ops);
+                    }
+                    out.count("wire.resp");
+                    (format!("{} {}", idx, hex(&v)), true)
+                }
+                Err(e) => (format!("{} err:{}", idx, err_class(&e)), false),
+            }
+        }
+        "twin" => {
+            // twin <idx> <kind> <id> <qf> <query> <stale q len> <stale b len> <element bytes>: documented twins —
+            // write_message_typed_slice / _complex_slice == builder.body_typed_slice / _complex_slice + write_message
+            let ops = vec![line.to_string()];
+            let kind = w[2];
+            let id: u64 = w[3].parse().unwrap();
+            let qf: u16 = w[4].parse().unwrap();
+            let q = unhex(w[5]).unwrap();
+            let (sq, sb): (u64, u64) = (w[6].parse().unwrap(), w[7].parse().unwrap());
+            let raw = unhex(w[8]).unwrap();
+            let mut h = Header::new();
+            h.id = id;
+            h.query_format = qf;
+            h.query_length = sq; // stale lengths the writer must overwrite
+            h.body_length = sb;
+            h.length = sq.wrapping_mul(3);
+            let bld = || Message::builder().id(id).query_format_code(qf).query_bytes(q.clone());
+            let mut streamed = MoodySink::new(9, true);
+            let (res, built) = match kind {
+                "f64" => {
+                    let xs: Vec<f64> = raw.chunks_exact(8).map(|c| f64::from_le_bytes(c.try_into().unwrap())).collect();
+                    (repe::write_message_typed_slice(&mut streamed, h, &q, &xs), bld().body_typed_slice(&xs).build())
+                }
+                "i32" => {
+                    let xs: Vec<i32> = raw.chunks_exact(4).map(|c| i32::from_le_bytes(c.try_into().unwrap())).collect();
+                    (repe::write_message_typed_slice(&mut streamed, h, &q, &xs), bld().body_typed_slice(&xs).build())
+                }
+                "u8" => (repe::write_message_typed_slice(&mut streamed, h, &q, &raw[..]), bld().body_typed_slice(&raw[..]).build()),
+                _ => {
+                    let xs: Vec<repe::Complex<f32>> = raw.chunks_exact(8).map(|c| repe::Complex { re: f32::from_le_bytes(c[..4].try_into().unwrap()), im: f32::from_le_bytes(c[4..].try_into().unwrap()) }).collect();
+                    (repe::write_message_complex_slice(&mut streamed, h, &q, &xs), bld().body_complex_slice(&xs).build())
+                }
+            };
+            let mut buffered = Vec::new();
+            repe::write_message(&mut buffered, &built).unwrap();
+            let whole = matches!(RawFrame::parse_prefix(&streamed.out), Some((ref f, n)) if n == streamed.out.len() && f.query == q);
+            let same_frame = streamed.out == buffered && built.clone().into_wire_bytes() == buffered;
+            if res.is_err() || !whole || !same_frame {
+                out.oracle_fail(&format!("wire.twin.{}", kind), &format!("streamed slice writer vs builder + write_message: ok {} whole-frame {} identical {}", res.is_ok(), whole, same_frame), &ops);
+            }
+            out.count(&format!("wire.twin.{}", kind));
+            (format!("{} {}", idx, if same_frame { "=".to_string() } else { hex(&streamed.out) }), true)
+        }
+        "cb" => {
+            // cb <idx> <behaviour> <11 header fields> <query> <body>: write_message_streaming with a body callback that
+            // errs / panics / is slow / writes a nested frame through the same sink.  The property is silent about a
+            // failing or panicking callback: those are run (the harness must survive) and nothing is asserted.
+            let ops = vec![line.to_string()];
+            let beh = w[2];
+            let rh = parse_header_words(&w[3..14]).expect("cb header");
+            let q = unhex(w[14]).unwrap();
+            let b = unhex(w[15]).unwrap();
+            let h = rh.to_repe();
+            let inner = RawFrame::request(5, true, 1, b"/inner", 0, &b);
+            let body: Vec<u8> = if beh == "nested" { inner.to_vec() } else { b.clone() };
+            let mut sink = MoodySink::new(11, true);
+            let r = catch(|| {
+                repe::write_message_streaming(&mut sink, h, &q, body.len() as u64, |w: &mut MoodySink| -> Result<(), repe::RepeError> {
+                    match beh {
+                        "err_io" => Err(std::io::Error::other("callback failed").into()),
+                        "err_repe" => Err(repe::RepeError::UnknownEnumValue(7)),
+                        "panic_str" => panic!("callback panicked"),
+                        "panic_string" => panic!("{}", format!("callback {}", 7)),
+                        "panic_other" => std::panic::panic_any(7u32),
+                        "slow" => { std::thread::sleep(std::time::Duration::from_millis(3)); std::io::Write::write_all(w, &body).map_err(Into::into) }
+                        "nested" => {
+                            let mut ih = Header::new();
+                            ih.id = 5;
+                            ih.notify = 1;
+                            ih.query_format = 1;
+                            repe::write_message_streaming(w, ih, b"/inner", b.len() as u64, |w2: &mut MoodySink| std::io::Write::write_all(w2, &b))
+                        }
+                        _ => std::io::Write::write_all(w, &body).map_err(Into::into),
+                    }
+                })
+            });
+            out.count(&format!("wire.cb.{}.{}", beh, match &r { Ok(Ok(())) => "ok", Ok(Err(_)) => "err", Err(_) => "panic" }));
+            if matches!(beh, "slow" | "nested" | "plain") {
+                let mut ph = rh.clone();
+                ph.query_length = q.len() as u64;
+                ph.body_length = body.len() as u64;
+                ph.length = 48 + q.len() as u64 + body.len() as u64;
+                let want = RawFrame { h: ph, query: q.clone(), body: body.clone() }.to_vec();
+                if !matches!(r, Ok(Ok(()))) || sink.out != want {
+                    out.oracle_fail(&format!("wire.cb.{}", beh), "streamed frame with a slow / re-entrant body callback differs from the patched spec layout", &ops);
+                }
+            }
+            (format!("{} ran", idx), false)
+        }
+        "readm" => {
+            // readm <idx> <reader 0..3> <frag> <stream> <stream> …: ONE reader value and ONE reused buffer over several
+            // streams in a row; a stream may end in an error or mid-frame — the next one must be read as with a fresh buffer
+            let kind = w[2];
+            let frag: usize = w[3].parse().unwrap();
+            let streams: Vec<Vec<u8>> = w[4..].iter().map(|x| unhex(x).unwrap()).collect();
+            let ops = vec![line.to_string()];
+            let r = catch(|| {
+                let mut buf: Vec<u8> = Vec::with_capacity(17);
+                buf.extend_from_slice(b"stale-bytes-from-an-earlier-use");
+                let mut per: Vec<(Vec<Vec<u8>>, String)> = Vec::new();
+                for sbytes in &streams {
+                    let mut cur = FragReader::new(sbytes, frag);
+                    let mut frames: Vec<Vec<u8>> = Vec::new();
+                    let end = loop {
+                        let res: Result<Vec<u8>, repe::RepeError> = match kind {
+                            "0" => repe::read_message(&mut cur).map(|m| m.to_vec()),
+                            "2" => rtm.block_on(async { repe::async_io::read_message_async(&mut cur).await }).map(|m| m.to_vec()),
+                            "1" => repe::read_message_into(&mut cur, &mut buf).map(|_| buf.clone()),
+                            _ => rtm.block_on(async { repe::async_io::read_message_into_async(&mut cur, &mut buf).await }).map(|_| buf.clone()),
+                        };
+                        match res {
+                            Ok(f) => frames.push(f),
+                            Err(e) => break err_class(&e),
+                        }
+                        if frames.len() > 10_000 { break "runaway".to_string(); }
+                    };
+                    per.push((frames, end));
+                }
+                per
+            });
+            match r {
+                Err(msg) => {
+                    out.oracle_fail(&format!("parse.readm{}.panic", kind), &format!("reading several streams with one buffer panicked: {}", msg), &ops);
+                    (format!("{} PANIC", idx), false)
+                }
+                Ok(per) => {
+                    let mut shown = Vec::new();
+                    for (i, (frames, end)) in per.iter().enumerate() {
+                        let (want, _) = RawFrame::split_stream(&streams[i]);
+                        let want: Vec<Vec<u8>> = want.iter().map(|f| f.to_vec()).collect();
+                        if *frames != want {
+                            out.oracle_fail(&format!("parse.readm{}.frames_after_reuse", kind), &format!("stream {} of {} read with a reused buffer (fragments of {}): got {} frames, the stream holds {} whole frames (or their bytes differ)", i + 1, per.len(), frag, frames.len(), want.len()), &ops);
+                        }
+                        let fs: Vec<String> = frames.iter().map(|f| format!("{}:{:016x}", f.len(), fnv(f))).collect();
+                        shown.push(format!("n={} [{}] end={}", frames.len(), fs.join(","), end));
+                    }
+                    out.count(&format!("parse.readm{}", kind));
+                    (format!("{} {}", idx, shown.join(" | ")), true)
+                }
+            }
         }
         "hdr" => {
             let bs = unhex(w[2]).unwrap();
@@ -246,11 +663,13 @@ fn exec(out: &mut Out, line: &str, rtm: &tokio::runtime::Runtime) -> (String, bo
         "read0" | "read2" => {
             let bs = unhex(w[2]).unwrap();
             let op = w[0];
+            let frag: usize = w.get(3).and_then(|x| x.parse().ok()).unwrap_or(0);
             let r = catch(|| {
+                let mut src = FragReader::new(&bs, frag);
                 if op == "read0" {
-                    repe::read_message(&mut &bs[..])
+                    repe::read_message(&mut src)
                 } else {
-                    rtm.block_on(async { repe::async_io::read_message_async(&mut &bs[..]).await })
+                    rtm.block_on(async { repe::async_io::read_message_async(&mut src).await })
                 }
             });
             let nontrivial = matches!(r, Ok(Ok(_)));
@@ -260,12 +679,14 @@ fn exec(out: &mut Out, line: &str, rtm: &tokio::runtime::Runtime) -> (String, bo
         "read1" | "read3" => {
             let bs = unhex(w[2]).unwrap();
             let op = w[0];
+            let frag: usize = w.get(3).and_then(|x| x.parse().ok()).unwrap_or(0);
             let r = catch(|| {
                 let mut buf = Vec::new();
+                let mut src = FragReader::new(&bs, frag);
                 let res = if op == "read1" {
-                    repe::read_message_into(&mut &bs[..], &mut buf)
+                    repe::read_message_into(&mut src, &mut buf)
                 } else {
-                    rtm.block_on(async { repe::async_io::read_message_into_async(&mut &bs[..], &mut buf).await })
+                    rtm.block_on(async { repe::async_io::read_message_into_async(&mut src, &mut buf).await })
                 };
                 res.map(|_| buf)
             });
@@ -286,9 +707,10 @@ fn exec(out: &mut Out, line: &str, rtm: &tokio::runtime::Runtime) -> (String, bo
             // buffer that starts with spare capacity, the way the servers use them
             let bs = unhex(w[2]).unwrap();
             let op = w[0];
+            let frag: usize = w.get(3).and_then(|x| x.parse().ok()).unwrap_or(0);
             let r = catch(|| {
                 let mut frames: Vec<Vec<u8>> = Vec::new();
-                let mut cur = &bs[..];
+                let mut cur = FragReader::new(&bs, frag);
                 let mut buf: Vec<u8> = Vec::with_capacity(4096);
                 let end = loop {
                     let res: Result<Vec<u8>, repe::RepeError> = match op {
@@ -427,14 +849,89 @@ fn gen_wire(r: &mut Rng, n: usize, big_every: usize) -> Vec<String> {
         };
         let qspare = *r.pick(&[0usize, 0, 1, 47, 48, 49, 128, 4096]);
         let wmax = *r.pick(&[1usize, 2, 7, 8, 47, 48, 49, 50, 64, 1000]);
-        ops.push(format!("msg {} {} {} {} {} {} {}", i, h.fields(), hex(&q), hex(&b), cap, qspare, wmax));
+        ops.push(format!("msg {} {} {} {} {} {} {} {}", i, h.fields(), hex(&q), hex(&b), cap, qspare, wmax, r.below(2)));
         if i % 5 == 0 {
             let ec = *r.pick(&[0u32, 1, 2, 3, 4, 5, 6, 7, 8, 9, 4096]);
-            ops.push(format!("build {}b {} {} {} {} {} {} {}", i, r.boundary(64), r.below(2), ec, r.boundary(16), r.boundary(16), hex(&q), hex(&b)));
+            ops.push(format!("build {}b {} {} {} {} {} {} {} {}", i, r.boundary(64), r.below(2), ec, r.boundary(16), r.boundary(16), hex(&q), hex(&b), r.below(12)));
+        }
+        if i % 7 == 6 || i + 1 == n {
+            ops.push(format!("sink {}s", i));
+        }
+        if i % 9 == 0 {
+            gen_aux(r, &mut ops, i, &h, &q, &b);
         }
     }
     ops
 }
+
+const TEXTS: &[&str] = &["", "x", "not found", "naïve — ünïcödé ✓", "tab\there\nnewline", "\u{0}nul inside", " leading and trailing "];
+const CODES: &[u32] = &[0, 1, 2, 3, 4, 5, 6, 7, 8, 9, 4096];
+
+fn gen_text(r: &mut Rng) -> String {
+    match r.below(9) {
+        0 => "e".repeat(*r.pick(&[255usize, 256, 4096, 70_000])),
+        _ => r.pick(TEXTS).to_string(),
+    }
+}
+
+fn gen_query(r: &mut Rng) -> Vec<u8> {
+    match r.below(8) {
+        0 => vec![],
+        1 => b"/".to_vec(),
+        2 => "/é/ü/√".as_bytes().to_vec(),
+        3 => vec![0xff, 0xfe, 0x00, 0x2f],          // not UTF-8
+        4 => { let mut v = b"/long".to_vec(); v.extend(std::iter::repeat(b'q').take(*r.pick(&[47usize, 48, 49, 4096, 66_000]))); v }
+        _ => { let l = r.below(40) as usize; let mut v = b"/".to_vec(); v.extend(r.bytes(l).iter().map(|x| b'a' + x % 26)); v }
+    }
+}
+
+/// Ops for the entry points beside the plain emission routes: Message::new / serialized_len, the library's own
+/// message constructors, the documented slice-writer twins, body callbacks of the streaming writer.
+fn gen_aux(r: &mut Rng, ops: &mut Vec<String>, i: usize, h: &RawHeader, q: &[u8], b: &[u8]) {
+    // Message::new with matching and mismatching declared lengths (each off by one, both, wrapped)
+    let mut nh = h.clone();
+    match r.below(6) {
+        0 => { nh.query_length = q.len() as u64; nh.body_length = b.len() as u64; }
+        1 => { nh.query_length = q.len() as u64 + 1; nh.body_length = b.len() as u64; }
+        2 => { nh.query_length = q.len() as u64; nh.body_length = (b.len() as u64).wrapping_sub(1); }
+        3 => { nh.query_length = b.len() as u64; nh.body_length = q.len() as u64; }
+        4 => { nh.query_length = (q.len() as u64) | (1 << 32); nh.body_length = b.len() as u64; }
+        _ => {}
+    }
+    ops.push(format!("new {}n {} {} {}", i, nh.fields(), hex(q), hex(b)));
+    let code = *r.pick(CODES);
+    ops.push(format!("errmsg {}e {} {}", i, code, hex(gen_text(r).as_bytes())));
+    let rq = gen_query(r);
+    let (sq, sb) = if r.chance(1, 2) { (rq.len() as u64, 3) } else { (r.boundary(64), r.boundary(64)) };
+    ops.push(format!("errlike {}l {} {} {} {} {} {}", i, r.boundary(64), hex(&rq), *r.pick(CODES), hex(gen_text(r).as_bytes()), sq, sb));
+    // create_response: the body is serialised here, independently, with the same serialisers the crate documents
+    let value = match r.below(6) {
+        0 => serde_json::Value::Null,
+        1 => serde_json::json!(r.next() as i64),
+        2 => serde_json::json!(gen_text(r)),
+        3 => serde_json::json!([1, 2, {"k": r.below(100)}]),
+        4 => serde_json::json!({"a": {"b": [true, false, null]}, "s": gen_text(r)}),
+        _ => serde_json::json!([]),
+    };
+    let bf = *r.pick(&[0u16, 1, 2, 3]);
+    let body = match bf {
+        1 => beve::to_vec(&value).unwrap(),
+        3 => serde_json::to_string(&value).unwrap().into_bytes(),
+        _ => serde_json::to_vec(&value).unwrap(),
+    };
+    let rqf = *r.pick(&[0u16, 1, 1, 2, 4095, 65535]);
+    ops.push(format!("resp {}r {} {} {} {} {} {}", i, r.boundary(64), rqf, hex(&gen_query(r)), bf, hex(&body), hex(serde_json::to_string(&value).unwrap().as_bytes())));
+    // documented twins: slice writers
+    let kind = *r.pick(&["f64", "i32", "u8", "c32"]);
+    let unit = match kind { "f64" | "c32" => 8, "i32" => 4, _ => 1 };
+    let count = *r.pick(&[0usize, 1, 2, 3, 63, 64, 65, 1000]);
+    let raw = r.bytes(unit * count);
+    ops.push(format!("twin {}t {} {} {} {} {} {} {}", i, kind, r.boundary(64), *r.pick(&[0u16, 1, 7, 65535]), hex(&gen_query(r)), r.boundary(64), r.boundary(64), hex(&raw)));
+    let beh = *r.pick(&["plain", "err_io", "err_repe", "panic_str", "panic_string", "panic_other", "slow", "nested"]);
+    ops.push(format!("cb {}c {} {} {} {}", i, beh, h.fields(), hex(q), hex(&b[..b.len().min(300)])));
+}
+
+const FRAGS: &[usize] = &[0, 0, 1, 2, 3, 7, 47, 48, 49, 64, 1000, 4097];
 
 const MIB16: u64 = 16 << 20;
 
@@ -472,7 +969,16 @@ fn gen_parse_inputs(r: &mut Rng, n: usize) -> Vec<Vec<u8>> {
         let valid = {
             let q = { let l = r.below(20) as usize; r.bytes(l) };
             let b = { let l = r.below(40) as usize; r.bytes(l) };
-            RawFrame::request(r.boundary(64), r.chance(1, 4), r.boundary(16) as u16, &q, r.boundary(16) as u16, &b)
+            let mut f = RawFrame::request(r.boundary(64), r.chance(1, 4), r.boundary(16) as u16, &q, r.boundary(16) as u16, &b);
+            // the fields no parser may care about take their full ranges here too (a third of the inputs keep the
+            // ordinary values so that the ordinary paths stay densely covered)
+            if r.chance(2, 3) {
+                f.h.version = r.boundary(8) as u8;
+                f.h.notify = r.boundary(8) as u8;
+                f.h.reserved = r.boundary(32) as u32;
+                f.h.ec = r.boundary(32) as u32;
+            }
+            f
         };
         let mut bs = valid.to_vec();
         match i % 8 {
@@ -542,8 +1048,17 @@ fn gen_parse_inputs(r: &mut Rng, n: usize) -> Vec<Vec<u8>> {
 fn gen_parse(r: &mut Rng, n: usize, truncation_sweeps: usize) -> Vec<String> {
     let mut ops = Vec::new();
     let mut k = 0usize;
+    // the stream readers get their input in fragments of a size drawn per input (recorded on the op line)
+    let frag_state = std::cell::Cell::new(r.next());
     let mut push = |ops: &mut Vec<String>, name: &str, bs: &[u8]| {
-        ops.push(format!("{} {} {}", name, k, hex(bs)));
+        if name.starts_with("read") {
+            let mut fr = Rng(frag_state.get() | 1);
+            let f = *fr.pick(FRAGS);
+            frag_state.set(fr.next());
+            ops.push(format!("{} {} {} {}", name, k, hex(bs), f));
+        } else {
+            ops.push(format!("{} {} {}", name, k, hex(bs)));
+        }
         k += 1;
     };
     for bs in gen_parse_inputs(r, n) {
@@ -587,6 +1102,40 @@ fn gen_parse(r: &mut Rng, n: usize, truncation_sweeps: usize) -> Vec<String> {
         }
         for name in ["reads0", "reads1", "reads2", "reads3"] {
             push(&mut ops, name, &stream);
+        }
+    }
+    drop(push);
+    ops.extend(gen_readm(r, (n / 40).max(12), "pm"));
+    ops
+}
+
+/// One reader and ONE reused buffer over 2–4 streams in a row; streams end cleanly, mid-frame, in garbage, in a
+/// hostile header (so the reuse happens after Ok, after UnexpectedEof, after InvalidSpec/LengthMismatch/alloc refusal).
+fn gen_readm(r: &mut Rng, n: usize, tag: &str) -> Vec<String> {
+    let mut ops = Vec::new();
+    for i in 0..n {
+        let ns = r.range(2, 4);
+        let mut streams = Vec::new();
+        for s in 0..ns {
+            let mut stream = Vec::new();
+            for j in 0..r.range(1, 3) {
+                // a long frame first, shorter ones later (and the other way round)
+                let bl = if (s + j) % 2 == 0 { 300 + r.below(2500) as usize } else { r.below(60) as usize };
+                let ql = r.below(24) as usize;
+                let (q, b) = (r.bytes(ql), r.bytes(bl));
+                stream.extend(RawFrame::request(100 * s + j, r.chance(1, 4), 1, &q, 2, &b).to_vec());
+            }
+            match r.below(6) {
+                0 => { let cut = r.below(stream.len() as u64) as usize; stream.truncate(cut); }
+                1 => { let l = 1 + r.below(80) as usize; stream.extend(r.bytes(l)); }
+                2 => stream.extend(RawHeader { length: 48 + (1 << 62), spec: 0x1507, version: 1, body_length: 1 << 62, ..Default::default() }.encode()),
+                3 => stream.extend(RawHeader { length: 47, spec: 0x1507, version: 1, query_length: u64::MAX, ..Default::default() }.encode()),
+                _ => {}
+            }
+            streams.push(hex(&stream));
+        }
+        for kind in 0..4 {
+            ops.push(format!("readm {}{}k{} {} {} {}", tag, i, kind, kind, *r.pick(FRAGS), streams.join(" ")));
         }
     }
     ops
@@ -649,6 +1198,8 @@ fn exec_net(out: &mut Out, w: &NetWorld, line: &str) -> (String, bool) {
     use tokio_tungstenite::tungstenite::Message as WsMsg;
     let ws_ = words(line);
     let (idx, ep, bs) = (ws_[1], ws_[2], unhex(ws_[3]).unwrap());
+    // optional: first a well-formed request on the SAME connection (answered), then the hostile bytes
+    let pre = ws_.get(4).map(|x| *x == "1").unwrap_or(false);
     let before = PANICS.load(std::sync::atomic::Ordering::SeqCst);
     let ping = RawFrame::request(77, false, 1, b"/ping", 2, b"null").to_vec();
     let t = std::time::Duration::from_millis(1500);
@@ -657,6 +1208,21 @@ fn exec_net(out: &mut Out, w: &NetWorld, line: &str) -> (String, bool) {
         "tcp" | "atcp" => {
             let addr = if ep == "tcp" { w.tcp } else { w.atcp };
             if let Ok(mut s) = std::net::TcpStream::connect(addr) {
+                if pre {
+                    let _ = s.set_read_timeout(Some(std::time::Duration::from_secs(10)));
+                    let mut answered = false;
+                    if s.write_all(&ping).is_ok() {
+                        let mut buf = Vec::new();
+                        let mut tmp = [0u8; 4096];
+                        while RawFrame::parse_prefix(&buf).is_none() {
+                            match s.read(&mut tmp) { Ok(0) | Err(_) => break, Ok(n) => buf.extend_from_slice(&tmp[..n]) }
+                        }
+                        answered = RawFrame::parse_prefix(&buf).map(|(f, _)| f.h.id == 77 && f.h.ec == 0).unwrap_or(false);
+                    }
+                    if !answered {
+                        out.oracle_fail(&format!("parse.net.{}.dead_before", ep), "a well-formed request on a fresh connection was not answered", &[line.to_string()]);
+                    }
+                }
                 let _ = s.write_all(&bs);
                 let _ = s.shutdown(std::net::Shutdown::Write);
                 let _ = s.set_read_timeout(Some(t));
@@ -685,6 +1251,10 @@ fn exec_net(out: &mut Out, w: &NetWorld, line: &str) -> (String, bool) {
             let mut served_inexact = false;
             alive = w.rt.block_on(async {
                 if let Ok((mut c, _)) = tokio_tungstenite::connect_async(&url).await {
+                    if pre {
+                        let _ = c.send(WsMsg::Binary(ping.clone())).await;
+                        let _ = tokio::time::timeout(std::time::Duration::from_secs(10), c.next()).await;
+                    }
                     let _ = c.send(WsMsg::Binary(bs.clone())).await;
                     let inexact = !matches!(RawFrame::parse_prefix(&bs), Some((_, n)) if n == bs.len());
                     if let Ok(Some(Ok(WsMsg::Binary(b)))) = tokio::time::timeout(t, c.next()).await {
@@ -764,6 +1334,73 @@ fn exec_net(out: &mut Out, w: &NetWorld, line: &str) -> (String, bool) {
                 out.oracle_fail(&format!("parse.net.{}.call_hung", ep), "a call answered with hostile bytes did not return within its own timeout", &[line.to_string()]);
             }
         }
+        // the WebSocket proxy entry point (`proxy_connection`): one inbound binary message = one frame, forwarded upstream
+        "wsproxy" => {
+            let upstream_addr = w.atcp;
+            let mut served_inexact = false;
+            alive = w.rt.block_on(async {
+                let one = |payload: Vec<u8>, wait: std::time::Duration| async move {
+                    let l = tokio::net::TcpListener::bind("127.0.0.1:0").await.ok()?;
+                    let addr = l.local_addr().ok()?;
+                    tokio::spawn(async move {
+                        let Ok(upstream) = repe::AsyncClient::connect(upstream_addr).await else { return };
+                        let Ok((s, _)) = l.accept().await else { return };
+                        let Ok(wsx) = tokio_tungstenite::accept_async(s).await else { return };
+                        let _ = repe::websocket_server::proxy_connection(wsx, upstream).await;
+                    });
+                    let (mut c, _) = tokio_tungstenite::connect_async(&format!("ws://{}/", addr)).await.ok()?;
+                    c.send(WsMsg::Binary(payload)).await.ok()?;
+                    match tokio::time::timeout(wait, c.next()).await {
+                        Ok(Some(Ok(WsMsg::Binary(b)))) => Some(b),
+                        _ => None,
+                    }
+                };
+                let inexact = !matches!(RawFrame::parse_prefix(&bs), Some((_, n)) if n == bs.len());
+                if let Some(b) = one(bs.clone(), t).await {
+                    if inexact && RawFrame::parse_prefix(&b).map(|(f, _)| f.h.ec == 0).unwrap_or(false) {
+                        served_inexact = true;
+                    }
+                }
+                match one(ping.clone(), std::time::Duration::from_secs(10)).await {
+                    Some(b) => RawFrame::parse_prefix(&b).map(|(f, _)| f.h.id == 77 && f.h.ec == 0).unwrap_or(false),
+                    None => false,
+                }
+            });
+            if served_inexact {
+                out.oracle_fail("parse.net.wsproxy.served_inexact_message", "the WebSocket proxy forwarded (and got answered, ec 0) a binary message that is not exactly one consistent frame", &[line.to_string()]);
+            }
+        }
+        // the real WebSocketClient answered with a well-formed response for ITS id followed by extra bytes in the same
+        // binary message: one message per buffer, so the exact-length rule says this is not a response
+        "wsecho" => {
+            let suffix = bs.clone();
+            let accepted = w.rt.block_on(async {
+                let l = tokio::net::TcpListener::bind("127.0.0.1:0").await.unwrap();
+                let addr = l.local_addr().unwrap();
+                tokio::spawn(async move {
+                    if let Ok((s, _)) = l.accept().await {
+                        if let Ok(mut wsx) = tokio_tungstenite::accept_async(s).await {
+                            while let Some(Ok(m)) = wsx.next().await {
+                                if let WsMsg::Binary(b) = m {
+                                    if let Some(h) = RawHeader::parse(&b) {
+                                        let mut reply = RawFrame::request(h.id, false, 1, b"/x", 2, b"7").to_vec();
+                                        reply.extend_from_slice(&suffix);
+                                        let _ = wsx.send(WsMsg::Binary(reply)).await;
+                                    }
+                                }
+                            }
+                        }
+                    }
+                });
+                match repe::websocket_client::WebSocketClient::connect(&format!("ws://{}/", addr)).await {
+                    Ok(c) => matches!(tokio::time::timeout(std::time::Duration::from_secs(10), c.call_json_with_timeout("/x", &serde_json::json!(1), std::time::Duration::from_secs(3))).await, Ok(Ok(_))),
+                    Err(_) => false,
+                }
+            });
+            if accepted && !bs.is_empty() {
+                out.oracle_fail("parse.net.wsclient.accepted_inexact_message", "the WebSocket client accepted as a response a binary message holding a frame followed by extra bytes", &[line.to_string()]);
+            }
+        }
         other => panic!("unknown endpoint {}", other),
     }
     let after = PANICS.load(std::sync::atomic::Ordering::SeqCst);
@@ -779,18 +1416,22 @@ fn exec_net(out: &mut Out, w: &NetWorld, line: &str) -> (String, bool) {
 
 fn gen_net(r: &mut Rng, n: usize) -> Vec<String> {
     let inputs = gen_parse_inputs(r, n);
-    let eps = ["tcp", "atcp", "ws", "client", "aclient", "wsclient"];
-    let mut ops: Vec<String> = inputs.iter().enumerate().map(|(i, bs)| format!("net n{} {} {}", i, eps[i % eps.len()], hex(bs))).collect();
+    let eps = ["tcp", "atcp", "ws", "client", "aclient", "wsclient", "wsproxy"];
+    let mut ops: Vec<String> = inputs.iter().enumerate().map(|(i, bs)| format!("net n{} {} {} {}", i, eps[i % eps.len()], hex(bs), r.below(2))).collect();
+    for i in 0..(n / 40).max(4) {
+        let suffix = match i % 4 { 0 => vec![], 1 => vec![0], 2 => RawFrame::request(1, false, 1, b"/x", 2, b"7").to_vec(), _ => { let l = 1 + r.below(40) as usize; r.bytes(l) } };
+        ops.push(format!("net e{} wsecho {}", i, hex(&suffix)));
+    }
     // a well-formed request to a registered route followed by trailing bytes / a second frame, as ONE WebSocket message:
     // the exact-length rule says it must not be served
-    for i in 0..(n / 12).max(8) {
+    for i in 0..(n / 12).max(12) {
         let mut m = RawFrame::request(4242, false, 1, b"/ping", 2, b"null").to_vec();
         match i % 3 {
             0 => { let l = 1 + r.below(9) as usize; m.extend(r.bytes(l)); }
             1 => m.extend(RawFrame::request(4243, false, 1, b"/ping", 2, b"null").to_vec()),
             _ => m.push(0),
         }
-        ops.push(format!("net x{} ws {}", i, hex(&m)));
+        ops.push(format!("net x{} {} {}", i, if i % 2 == 0 { "ws" } else { "wsproxy" }, hex(&m)));
     }
     ops
 }
@@ -849,10 +1490,11 @@ fn main() {
                 stream.extend(RawFrame::request(j + 1, false, 1, &q, 2, &b).to_vec());
             }
             for name in ["reads0", "reads1", "reads2", "reads3"] {
-                ops.push(format!("{} rb{} {}", name, k, hex(&stream)));
+                ops.push(format!("{} rb{} {} {}", name, k, hex(&stream), *rng.pick(FRAGS)));
                 k += 1;
             }
         }
+        ops.extend(gen_readm(&mut rng, if args.thorough() { 200 } else { 16 }, "wm"));
         ops
     } else {
         out.flush_each = true;
@@ -862,7 +1504,12 @@ fn main() {
         ops
     };
     let mut world: Option<NetWorld> = None;
+    let mut world_state = World::new();
     for line in ops {
+        if out.oracle_failures > 60 {
+            // a broken tree: enough failing inputs have been recorded, do not grind through the rest
+            break;
+        }
         out.begin(&line);
         if line.starts_with("net ") {
             let w = world.get_or_insert_with(net_world);
@@ -870,7 +1517,7 @@ fn main() {
             out.case(&line, &obs, nt);
             continue;
         }
-        let (obs, nt) = exec(&mut out, &line, &rtm);
+        let (obs, nt) = exec(&mut out, &mut world_state, &line, &rtm);
         out.case(&line, &obs, nt);
     }
     out.finish();
